@@ -36,6 +36,7 @@ import LedgerModel.Model.Value
 import LedgerModel.Gen.Ladder
 import LedgerModel.Gen.TokenSpellings
 import LedgerModel.Gen.InvalidChars
+import LedgerModel.Gen.ExprFlags
 
 namespace Ledger
 
@@ -598,38 +599,39 @@ inductive PCtx
 deriving DecidableEq, Repr
 
 /-- The token sequence of the text op_t::print writes: every operator node
-    except O_CALL and O_DEFINE is wrapped in parentheses (op.cc 669-670, 860-861);
-    an O_QUERY prints its O_COLON child as a parenthesised node of its own. -/
-def printToksAux : PCtx → Expr → List Tok
+    except O_CALL and O_DEFINE is wrapped in parentheses (op.cc 669-670, 860-861).
+    `pc` says whether the O_COLON child of an O_QUERY is such a node
+    (`Gen.printParenthesisesColon`, read off those two tests). -/
+def printToksAux (pc : Bool) : PCtx → Expr → List Tok
   | _, .nil => []
   | _, .plug => []
   | _, .val v => [.value v]
   | _, .ident n _ => [.ident n]
-  | _, .scope b => printToksAux .none b
-  | _, .un op e => [.lparen, op.tok] ++ printToksAux .none e ++ [.rparen]
-  | _, .bin op l r => [.lparen] ++ printToksAux .none l ++ [op.tok] ++ printToksAux .none r ++ [.rparen]
+  | _, .scope b => printToksAux pc .none b
+  | _, .un op e => [.lparen, op.tok] ++ printToksAux pc .none e ++ [.rparen]
+  | _, .bin op l r => [.lparen] ++ printToksAux pc .none l ++ [op.tok] ++ printToksAux pc .none r ++ [.rparen]
   | _, .query c a b =>
-    [.lparen] ++ printToksAux .none c ++ [.query, .lparen] ++ printToksAux .none a ++ [.colon] ++
-      printToksAux .none b ++ [.rparen, .rparen]
+    [.lparen] ++ printToksAux pc .none c ++ [.query] ++ (if pc then [.lparen] else []) ++ printToksAux pc .none a ++ [.colon] ++
+      printToksAux pc .none b ++ (if pc then [.rparen] else []) ++ [.rparen]
   | ctx, .cons l r =>
-    let inner := printToksAux .none l ++
+    let inner := printToksAux pc .none l ++
       (match r with
        | .nil => []
-       | r => [.comma] ++ printToksAux .inCons r)
+       | r => [.comma] ++ printToksAux pc .inCons r)
     if ctx = .inCons then inner else [.lparen] ++ inner ++ [.rparen]
   | ctx, .seq l r =>
-    let inner := printToksAux .none l ++
+    let inner := printToksAux pc .none l ++
       (match r with
        | .nil => []
-       | r => [.semi] ++ printToksAux .inSeq r)
+       | r => [.semi] ++ printToksAux pc .inSeq r)
     if ctx = .inSeq then inner else [.lparen] ++ inner ++ [.rparen]
-  | _, .define l r => printToksAux .none l ++ [.assign] ++ printToksAux .none r
-  | _, .lambda p b => [.lparen] ++ printToksAux .none p ++ [.arrow] ++ printToksAux .none b ++ [.rparen]
-  | _, .call f .nil => printToksAux .none f ++ [.lparen, .rparen]
-  | _, .call f (.cons l r) => printToksAux .none f ++ printToksAux .none (.cons l r)
-  | _, .call f a => printToksAux .none f ++ [.lparen] ++ printToksAux .none a ++ [.rparen]
+  | _, .define l r => printToksAux pc .none l ++ [.assign] ++ printToksAux pc .none r
+  | _, .lambda p b => [.lparen] ++ printToksAux pc .none p ++ [.arrow] ++ printToksAux pc .none b ++ [.rparen]
+  | _, .call f .nil => printToksAux pc .none f ++ [.lparen, .rparen]
+  | _, .call f (.cons l r) => printToksAux pc .none f ++ printToksAux pc .none (.cons l r)
+  | _, .call f a => printToksAux pc .none f ++ [.lparen] ++ printToksAux pc .none a ++ [.rparen]
 
-def printToks (e : Expr) : List Tok := printToksAux .none e
+def printToks (e : Expr) : List Tok := printToksAux Gen.printParenthesisesColon .none e
 
 def natDigits (n : Nat) : String := toString n
 
@@ -662,35 +664,36 @@ def BinOp.text : BinOp → String
 
 /-- The text op_t::print writes (op.cc 657-875), literal amounts at their own
     precision. -/
-def printAux : PCtx → Expr → String
+def printAux (pc : Bool) : PCtx → Expr → String
   | _, .nil => ""
   | _, .plug => ""
   | _, .val v => v.dumpText
   | _, .ident n _ => n
-  | _, .scope b => printAux .none b
-  | _, .un op e => "(" ++ op.text ++ printAux .none e ++ ")"
-  | _, .bin op l r => "(" ++ printAux .none l ++ op.text ++ printAux .none r ++ ")"
+  | _, .scope b => printAux pc .none b
+  | _, .un op e => "(" ++ op.text ++ printAux pc .none e ++ ")"
+  | _, .bin op l r => "(" ++ printAux pc .none l ++ op.text ++ printAux pc .none r ++ ")"
   | _, .query c a b =>
-    "(" ++ printAux .none c ++ " ? " ++ "(" ++ printAux .none a ++ " : " ++ printAux .none b ++ ")" ++ ")"
+    "(" ++ printAux pc .none c ++ " ? " ++ (if pc then "(" else "") ++ printAux pc .none a ++ " : " ++ printAux pc .none b ++
+      (if pc then ")" else "") ++ ")"
   | ctx, .cons l r =>
-    let inner := printAux .none l ++
+    let inner := printAux pc .none l ++
       (match r with
        | .nil => ""
-       | r => ", " ++ printAux .inCons r)
+       | r => ", " ++ printAux pc .inCons r)
     if ctx = .inCons then inner else "(" ++ inner ++ ")"
   | ctx, .seq l r =>
-    let inner := printAux .none l ++
+    let inner := printAux pc .none l ++
       (match r with
        | .nil => ""
-       | r => "; " ++ printAux .inSeq r)
+       | r => "; " ++ printAux pc .inSeq r)
     if ctx = .inSeq then inner else "(" ++ inner ++ ")"
-  | _, .define l r => printAux .none l ++ " = " ++ printAux .none r
-  | _, .lambda p b => "(" ++ printAux .none p ++ " -> " ++ printAux .none b ++ ")"
-  | _, .call f .nil => printAux .none f ++ "()"
-  | _, .call f (.cons l r) => printAux .none f ++ printAux .none (.cons l r)
-  | _, .call f a => printAux .none f ++ "(" ++ printAux .none a ++ ")"
+  | _, .define l r => printAux pc .none l ++ " = " ++ printAux pc .none r
+  | _, .lambda p b => "(" ++ printAux pc .none p ++ " -> " ++ printAux pc .none b ++ ")"
+  | _, .call f .nil => printAux pc .none f ++ "()"
+  | _, .call f (.cons l r) => printAux pc .none f ++ printAux pc .none (.cons l r)
+  | _, .call f a => printAux pc .none f ++ "(" ++ printAux pc .none a ++ ")"
 
-def print (e : Expr) : String := printAux .none e
+def print (e : Expr) : String := printAux Gen.printParenthesisesColon .none e
 
 /-! ## Evaluation (op_t::calc, op.cc 250-614) -/
 
